@@ -18,7 +18,11 @@ svars == <<env, outs, last, hist>>
 St(e, out) == [e |-> e, out |-> out]
 
 \* closures are projected to their kind when a state is shown to the harness
-ProjV(v) == IF v.t = "fn" THEN [t |-> "fn"] ELSE v
+RECURSIVE ProjV(_)
+ProjV(v) == CASE v.t = "fn"   -> [t |-> "fn"]
+              [] v.t = "list" -> List([i \in 1..Len(v.xs) |-> ProjV(v.xs[i])])
+              [] v.t = "rec"  -> Rec(v.ks, [i \in 1..Len(v.vs) |-> ProjV(v.vs[i])])
+              [] OTHER        -> v
 ProjEnv(fr) == [n \in Names |-> ProjV(fr[n])]
 
 Exec(st, e0, o0) ==
